@@ -58,22 +58,45 @@ CUSTOM = {'inner:iw': ('inner', custom_inner_iw), 'norm:l1x2': ('norm', custom_n
 
 # ----------------------------------------------------------------------------- spaces
 class Variant(object):
-    """Concretisation choices that the specification abstracts from."""
+    """Concretisation choices that the specification abstracts from.
+      dtype, tile (k-fold periodic repetition of a tensor leaf), shape '1d' | '2d' ((k, n)),
+      lay_x / lay_y / lay_w  memory layout of x, of y and z, of an array weighting: C | F | S (strided view),
+      power   write a product space of identical parts as ProductSpace(part, n),
+      wform   how a weighting is passed: 'value' (float / ndarray / callable keyword), 'instance' (Weighting
+              object), 'list' (array weights as nested list),
+      expform exponent passed as 'float' | 'int' (where it is an integer),
+      route   'direct' | 'astype' (built in the other precision, then .astype) | 'field' (built over the other
+              field, then .complex_space / .real_space)  -- unweighted / constant-weighted leaves only,
+      spell   0: element-level calls x.inner(y), x.norm(), x.dist(y);  1: space-level calls and x.T(y)."""
+    FIELDS = ('dtype', 'tile', 'shape', 'lay_x', 'lay_y', 'lay_w', 'power', 'wform', 'expform', 'route', 'spell')
 
-    def __init__(self, dtype, tile=1, shape='1d', lay_x='C', lay_y='C', lay_w='C', power=True):
+    def __init__(self, dtype, tile=1, shape='1d', lay_x='C', lay_y='C', lay_w='C', power=True, wform='value',
+                 expform='float', route='direct', spell=0):
         self.dtype = np.dtype(dtype)
         self.tile, self.shape, self.lay_x, self.lay_y, self.lay_w, self.power = tile, shape, lay_x, lay_y, lay_w, power
+        self.wform, self.expform, self.route, self.spell = wform, expform, route, spell
 
     def key(self):
-        return {'dtype': self.dtype.name, 'tile': self.tile, 'shape': self.shape, 'lay_x': self.lay_x,
-                'lay_y': self.lay_y, 'lay_w': self.lay_w, 'power': self.power}
+        d = {f: getattr(self, f) for f in self.FIELDS}
+        d['dtype'] = self.dtype.name
+        return d
 
     @staticmethod
     def from_key(k):
-        return Variant(k['dtype'], k['tile'], k['shape'], k['lay_x'], k['lay_y'], k['lay_w'], k['power'])
+        return Variant(**{f: k[f] for f in Variant.FIELDS if f in k})
 
     def tup(self):
-        return (self.dtype.name, self.tile, self.shape, self.lay_x, self.lay_y, self.lay_w, self.power)
+        k = self.key()
+        return tuple(k[f] for f in self.FIELDS)
+
+    def with_(self, **kw):
+        k = self.key()
+        k.update(kw)
+        return Variant.from_key(k)
+
+    def space_key(self):
+        """The part of the variant a space depends on."""
+        return (self.dtype.name, self.tile, self.shape, self.lay_w, self.power, self.wform, self.expform, self.route)
 
 
 def real_dtype(dt):
@@ -108,38 +131,87 @@ def tile_flat(vals, k):
     return np.tile(a, k) if k > 1 else a
 
 
-def build_space(desc, var):
-    dt = var.dtype
-    p = exponent(desc['p'])
-    kind = desc['kind']
-    if kind == 'tensor':
-        shape = leaf_shape(desc, var)
-        w = desc['w']
-        kw = {}
-        if w['k'] == 'custom':
-            what, fn = CUSTOM[w['tag']]
-            kw[what] = fn
-            return odl.tensor_space(shape, dtype=dt, **kw)
-        if w['k'] == 'const':
-            kw['weighting'] = float(q(w['c']))
-        elif w['k'] == 'array':
-            arr = tile_flat([float(q(v)) for v in w['arr']], var.tile).astype(real_dtype(dt)).reshape(shape)
-            kw['weighting'] = layout_array(arr, 'F' if var.lay_w == 'F' else 'C')
-        return odl.tensor_space(shape, dtype=dt, exponent=p, **kw)
-    if kind == 'discr':
+OTHER_PRECISION = {'float64': 'float32', 'float32': 'float64', 'complex128': 'complex64', 'complex64': 'complex128'}
+OTHER_FIELD = {'float64': 'complex128', 'float32': 'complex64', 'complex128': 'float64', 'complex64': 'float32'}
+
+
+def exp_arg(p, var):
+    if p == PINF:
+        return float('inf')
+    return int(p) if var.expform == 'int' else float(p)
+
+
+def _leaf(desc, var, dt):
+    """A tensor / discretised leaf over dtype dt, the weighting passed in the requested form."""
+    from odl.space.npy_tensors import (NumpyTensorSpaceConstWeighting, NumpyTensorSpaceArrayWeighting,
+                                       NumpyTensorSpaceCustomInner, NumpyTensorSpaceCustomNorm,
+                                       NumpyTensorSpaceCustomDist)
+    p = exp_arg(desc['p'], var)
+    if desc['kind'] == 'discr':
         axes = desc['axes']
         return odl.uniform_discr([float(q(a['min'])) for a in axes], [float(q(a['max'])) for a in axes],
                                  [a['n'] for a in axes], dtype=dt, exponent=p,
                                  nodes_on_bdry=[(bool(a['l']), bool(a['r'])) for a in axes])
+    shape = leaf_shape(desc, var)
+    w = desc['w']
+    kw = {}
+    if w['k'] == 'custom':
+        what, fn = CUSTOM[w['tag']]
+        if var.wform == 'instance':
+            cls = {'inner': NumpyTensorSpaceCustomInner, 'norm': NumpyTensorSpaceCustomNorm,
+                   'dist': NumpyTensorSpaceCustomDist}[what]
+            return odl.tensor_space(shape, dtype=dt, weighting=cls(fn))
+        return odl.tensor_space(shape, dtype=dt, **{what: fn})
+    if w['k'] == 'const':
+        c = float(q(w['c']))
+        kw['weighting'] = NumpyTensorSpaceConstWeighting(c, exponent=p) if var.wform == 'instance' else c
+    elif w['k'] == 'array':
+        wdt = real_dtype(dt) if np.dtype(dt).kind in 'fc' else np.dtype(dt)
+        arr = tile_flat([float(q(v)) for v in w['arr']], var.tile).astype(wdt).reshape(shape)
+        arr = layout_array(arr, 'F' if var.lay_w == 'F' else 'C')
+        if var.wform == 'instance':
+            kw['weighting'] = NumpyTensorSpaceArrayWeighting(arr, exponent=p)
+        elif var.wform == 'list' and np.dtype(dt).name in ('float64', 'complex128', 'int64') and arr.size:
+            kw['weighting'] = arr.tolist()
+        else:
+            kw['weighting'] = arr
+    ctor = odl.tensor_space
+    if len(shape) == 1 and var.wform != 'instance':        # the rn / cn spellings
+        if np.dtype(dt).kind == 'f':
+            return odl.rn(shape[0], dtype=dt, exponent=p, **kw)
+        if np.dtype(dt).kind == 'c':
+            return odl.cn(shape[0], dtype=dt, exponent=p, **kw)
+    return ctor(shape, dtype=dt, exponent=p, **kw)
+
+
+def build_space(desc, var):
+    dt = var.dtype
+    kind = desc['kind']
+    if kind in ('tensor', 'discr'):
+        simple = desc['w']['k'] in ('none', 'const') and dt.name in OTHER_FIELD
+        if var.route == 'astype' and simple:
+            return _leaf(desc, var, OTHER_PRECISION[dt.name]).astype(dt)
+        if var.route == 'field' and simple:
+            base = _leaf(desc, var, OTHER_FIELD[dt.name])
+            return base.complex_space if dt.kind == 'c' else base.real_space
+        return _leaf(desc, var, dt)
     if kind == 'pspace':
-        sub = Variant(dt, 1, '1d', var.lay_x, var.lay_y, 'C', var.power)
+        from odl.space.pspace import ProductSpaceConstWeighting, ProductSpaceArrayWeighting
+        sub = var.with_(tile=1, shape='1d', lay_w='C')
         parts = [build_space(d, sub) for d in desc['parts']]
         w = desc['w']
+        p = exp_arg(desc['p'], var)
         kw = {'exponent': p}
         if w['k'] == 'const':
-            kw['weighting'] = float(q(w['c']))
+            c = float(q(w['c']))
+            kw = {'weighting': ProductSpaceConstWeighting(c, exponent=p)} if var.wform == 'instance' else \
+                {'exponent': p, 'weighting': c}
         elif w['k'] == 'array':
-            kw['weighting'] = np.array([float(q(v)) for v in w['arr']])
+            arr = np.array([float(q(v)) for v in w['arr']])
+            if var.wform == 'instance':
+                kw = {'weighting': ProductSpaceArrayWeighting(arr, exponent=p)}
+            else:
+                kw['weighting'] = arr.tolist() if var.wform == 'list' else arr
         if var.power and all(d == desc['parts'][0] for d in desc['parts']):
             return odl.ProductSpace(parts[0], len(parts), **kw)
         return odl.ProductSpace(*parts, **kw)
@@ -293,6 +365,8 @@ def _call(fn):
 
 def cscalar(c, dtype):
     v = cpy(c)
+    if np.dtype(dtype).kind == 'i':
+        return int(v)               # integer spaces get integer scalars (the case is offered only if a is one)
     if isinstance(v, float) and v == int(v) and int(v) % 2 == 0:
         return int(v)               # mix python ints and floats as a user would
     return v
@@ -305,20 +379,36 @@ def observe_raw(space, desc, case, var):
     z = build_element(space, desc, case['z'], var, var.lay_y)
     a = cscalar(case['a'], var.dtype)
     raw = {}
-    raw['ixy'] = _call(lambda: x.inner(y))
-    raw['iyx'] = _call(lambda: y.inner(x))
-    raw['ixx'] = _call(lambda: x.inner(x))
-    raw['iyy'] = _call(lambda: space.inner(y, y))
-    raw['ixz'] = _call(lambda: x.inner(z))
-    raw['iyz'] = _call(lambda: y.inner(z))
-    raw['ilin'] = _call(lambda: (a * x + y).inner(z))
-    raw['nx'] = _call(lambda: x.norm())
-    raw['ny'] = _call(lambda: space.norm(y))
-    raw['nax'] = _call(lambda: (a * x).norm())
-    raw['nxpy'] = _call(lambda: (x + y).norm())
-    raw['nxmy'] = _call(lambda: (x - y).norm())
-    raw['dxy'] = _call(lambda: x.dist(y))
-    raw['dyx'] = _call(lambda: space.dist(y, x))
+    if var.spell == 0:          # element-level spellings (two space-level ones mixed in)
+        raw['ixy'] = _call(lambda: x.inner(y))
+        raw['iyx'] = _call(lambda: y.inner(x))
+        raw['ixx'] = _call(lambda: x.inner(x))
+        raw['iyy'] = _call(lambda: space.inner(y, y))
+        raw['ixz'] = _call(lambda: x.inner(z))
+        raw['iyz'] = _call(lambda: y.inner(z))
+        raw['ilin'] = _call(lambda: (a * x + y).inner(z))
+        raw['nx'] = _call(lambda: x.norm())
+        raw['ny'] = _call(lambda: space.norm(y))
+        raw['nax'] = _call(lambda: (a * x).norm())
+        raw['nxpy'] = _call(lambda: (x + y).norm())
+        raw['nxmy'] = _call(lambda: (x - y).norm())
+        raw['dxy'] = _call(lambda: x.dist(y))
+        raw['dyx'] = _call(lambda: space.dist(y, x))
+    else:                       # space-level spellings, the transpose functional x.T = <., x>, lincomb
+        raw['ixy'] = _call(lambda: space.inner(x, y))
+        raw['iyx'] = _call(lambda: x.T(y))
+        raw['ixx'] = _call(lambda: space.inner(x, x))
+        raw['iyy'] = _call(lambda: y.T(y))
+        raw['ixz'] = _call(lambda: z.T(x))
+        raw['iyz'] = _call(lambda: space.inner(y, z))
+        raw['ilin'] = _call(lambda: space.inner(space.lincomb(a, x, 1, y), z))
+        raw['nx'] = _call(lambda: space.norm(x))
+        raw['ny'] = _call(lambda: y.norm())
+        raw['nax'] = _call(lambda: space.norm(space.lincomb(a, x)))
+        raw['nxpy'] = _call(lambda: space.norm(x + y))
+        raw['nxmy'] = _call(lambda: space.norm(space.lincomb(1, x, -1, y)))
+        raw['dxy'] = _call(lambda: space.dist(x, y))
+        raw['dyx'] = _call(lambda: y.dist(x))
     raw['none'] = _call(lambda: space.one().norm())
     return raw
 
